@@ -3,7 +3,7 @@
    translated from /repo/billiard/pool.py on this run. *)
 From Coq Require Import ZArith List Bool.
 From BV Require Import Lib.PyVal Gen.K_laxsem Model.LaxSem Proofs.LaxSemProofs.
-From BV Require Model.Pool Proofs.PoolSup Gen.G_laxsem_atomic.
+From BV Require Gen.G_pool_shape Model.Pool Proofs.PoolSup Gen.G_laxsem_atomic.
 Import ListNotations.
 Open Scope Z_scope.
 
@@ -71,6 +71,13 @@ Theorem C10_pool_semaphore_bounded : forall c tr,
     0 <= Pool.c_n c -> SInv (Pool.sem (Pool.run c tr)).
 Proof. exact PoolSup.sem_reachable. Qed.
 Print Assumptions C10_pool_semaphore_bounded.
+
+(* slots are given back once per first result of an unresolved job and once per reaped worker (facts computed from the AST of /repo/billiard/pool.py on this run) *)
+Theorem C10_pool_code_shape :
+  G_pool_shape.slot_released_only_for_unresolved = true /\
+  G_pool_shape.one_slot_per_reaped_worker = true.
+Proof. repeat split; reflexivity. Qed.
+Print Assumptions C10_pool_code_shape.
 
 Example C10_witness :
   srun (sem_init 2) [Acquire; Acquire; Acquire; Release; Release; Release; ShrinkStart; ShrinkFinish; Grow; Clear]
